@@ -4226,6 +4226,16 @@ let kr_kill k text m0 =
                      k.kr_killing; kr_newest = idx }
               else Panic
 
+(** val kr_repeated : killring -> nat -> killring **)
+
+let kr_repeated k n0 =
+  match k.kr_last with
+  | KAYank size ->
+    { kr_slots = k.kr_slots; kr_cap = k.kr_cap; kr_index = k.kr_index;
+      kr_last = (KAYank (mul size n0)); kr_killing = k.kr_killing;
+      kr_newest = k.kr_newest }
+  | _ -> k
+
 (** val kr_yank : killring -> killring * str option **)
 
 let kr_yank k =
@@ -8557,9 +8567,11 @@ let execute u cfg c =
               (match t with
                | Some text ->
                  ebind (edit_yank u cfg text a n0) (fun _ ->
-                   if is_emacs0 cfg
-                   then eret ()
-                   else ebind eget (fun s2 -> set_kr (kr_reset s2.e_kr)))
+                   ebind eget (fun s2 ->
+                     set_kr
+                       (if is_emacs0 cfg
+                        then kr_repeated s2.e_kr n0
+                        else kr_reset s2.e_kr)))
                | None -> eret ()) (fun _ -> eret Proceed)))
       | CYankPop ->
         ebind eget (fun s ->
